@@ -664,6 +664,15 @@ class System:
             if len(self._get_sources()) < 2:
                 raise ValueError("Cannot delete the last source component!")
         childs = self._get_childs()
+        # remember PMux input entries (by name or rail) of the childs that refer to this component
+        refs = []
+        if not del_childs and childs[eidx] != -1:
+            refs = [
+                (c, i)
+                for c in childs[eidx]
+                for i, p in enumerate(self._g.attrs["pnames"][c])
+                if self._get_index(p) == eidx
+            ]
         # if not leaf, check if child type is allowed by parent type (not possible?)
         # if leaves[eidx] == 0:
         #     for c in childs[eidx]:
@@ -690,6 +699,17 @@ class System:
             if childs[eidx] != -1:
                 for c in childs[eidx]:
                     self._g.add_edge(parents[eidx][0], c, None)
+                # the childs are now fed by the deleted component's parent
+                pname = self._g[parents[eidx][0]]._params["name"]
+                for c, i in refs:
+                    self._g.attrs["pnames"][c][i] = pname
+                for c in childs[eidx]:
+                    seen, plist = [], []
+                    for p in self._g.attrs["pnames"][c]:
+                        if self._get_index(p) not in seen:
+                            seen += [self._get_index(p)]
+                            plist += [p]
+                    self._g.attrs["pnames"][c] = plist
 
     def tree(self, name=""):
         """Print the tree structure of the system.
